@@ -13,19 +13,85 @@ from sa import effects as E
 from sa.rules import exh, ownrule
 
 
+def _chain(ix, uv, meth):
+    """the method resolved on the update visitor and the base implementations it delegates to (super().meth / Base.meth(self, ...))"""
+    out = []
+    seen = set()
+    mro = [c for c in ix.mro(uv) if hasattr(c, 'methods')]
+    for c in mro:
+        f = c.methods.get(meth)
+        if f is None or id(f) in seen:
+            continue
+        if out:
+            # only reached if the previous one delegates
+            prev = out[-1]
+            delegates = any(isinstance(n, ast.Call) and isinstance(n.func, ast.Attribute) and n.func.attr == meth and not (isinstance(n.func.value, ast.Name) and n.func.value.id == 'self')
+                            for n in ast.walk(prev.node))
+            if not delegates:
+                break
+        seen.add(id(f))
+        out.append(f)
+    return out
+
+
 def _dict_key_exprs(ix, uv):
     """key expressions used to look the operator up in visitBinary/visitUnary of the update visitor"""
     keys = {}
     for meth in ('visitBinary', 'visitUnary'):
-        f = ix.resolve_method(uv, meth)
-        if f is None:
+        chain = _chain(ix, uv, meth)
+        if not chain:
             raise AnalysisError('update visitor %s lacks %s' % (uv.name, meth))
-        nodep = f.node.args.args[1].arg
-        for n in ast.walk(f.node):
-            if isinstance(n, ast.Subscript) and isinstance(n.ctx, ast.Load) and isinstance(n.value, ast.Name) \
-                    and n.value.id == 'online_operator_dict':
-                keys[meth] = (ast.unparse(n.slice).replace(nodep, 'node'), f, n)
+        for f in chain:
+            nodep = f.node.args.args[1].arg
+            for n in ast.walk(f.node):
+                if isinstance(n, ast.Subscript) and isinstance(n.ctx, ast.Load) and isinstance(n.value, ast.Name) \
+                        and n.value.id == 'online_operator_dict' and meth not in keys:
+                    keys[meth] = (ast.unparse(n.slice).replace(nodep, 'node'), f, n)
+        if meth not in keys:
+            raise AnalysisError('update visitor %s: %s never looks an operator up' % (uv.name, meth))
     return keys
+
+
+def check_every_path_steps(ix, rep, uv, slotp, rule='R-STEP'):
+    """on every path through visitBinary/visitUnary (including overrides that delegate) every child is visited and the operator is
+    stepped before the method returns: a path that skips a sub-tree leaves the stateful operators below one sample behind for ever"""
+    from sa import flow
+    for meth, arity in (('visitBinary', 2), ('visitUnary', 1)):
+        for f in _chain(ix, uv, meth):
+            nodep = f.node.args.args[1].arg
+            cfg = flow.CFG(f.node)
+            dom = cfg.dominators()
+            parents = {}
+            for p in ast.walk(f.node):
+                for c in ast.iter_child_nodes(p):
+                    parents[id(c)] = p
+            rets = [r for r in ast.walk(f.node) if isinstance(r, ast.Return)]
+            bad = None
+            for r in rets:
+                v = r.value
+                if isinstance(v, ast.Call) and isinstance(v.func, ast.Attribute) and v.func.attr == meth and not (isinstance(v.func.value, ast.Name) and v.func.value.id == 'self'):
+                    continue       # delegation to the base implementation, analysed in its own right
+                def visits(k):
+                    def pred(s, dn, k=k):
+                        return any(isinstance(n, ast.Call) and ast.unparse(n.func) == 'self.visit' and n.args and ast.unparse(n.args[0]) == '%s.children[%d]' % (nodep, k)
+                                   for n in ast.walk(s)) and not isinstance(s, (ast.If, ast.For, ast.While, ast.Try))
+                    return pred
+                def steps(s, dn):
+                    return any(isinstance(n, ast.Call) and isinstance(n.func, ast.Attribute) and n.func.attr in ('update', 'update_final') for n in ast.walk(s)) \
+                        and not isinstance(s, (ast.If, ast.For, ast.While, ast.Try))
+                st = r
+                missing = [k for k in range(arity) if not flow.dominated_by(cfg, dom, st, visits(k))]
+                if missing:
+                    bad = (r, 'returns without visiting operand %d' % missing[0])
+                    break
+                if not flow.dominated_by(cfg, dom, st, steps):
+                    bad = (r, 'returns without stepping the operator of the node')
+                    break
+            if bad:
+                rep.fail(rule, f.module.rel, f.qual, '%s:every-path:%s' % (slotp, meth), '%s of the update visitor %s on some path: the stateful operators of the skipped sub-tree miss that '
+                         'sample and stay out of phase with the offline result for every later update' % (meth, bad[1]), bad[0].lineno)
+            else:
+                rep.ok(rule, f.module.rel, f.qual, '%s:every-path:%s' % (slotp, meth), 'every return is dominated by the visits of all operands and by the operator step', f.node.lineno)
 
 
 def _update_calls(f):
@@ -93,6 +159,7 @@ def check_step(ix, rep, mon, rule='R-STEP'):
         raise AnalysisError('no update visitor for %s' % mon.label)
     keys = _dict_key_exprs(ix, uv)
     slotp = mon.kind
+    check_every_path_steps(ix, rep, uv, slotp, rule)
     # each of visitBinary/visitUnary steps its operator exactly once
     for meth, (key, f, n) in sorted(keys.items()):
         rep.analysed(f)
